@@ -1040,6 +1040,16 @@ int streamIterC(std::istream& in)
       orc = CursorOracle(); orc.jump(u64(t[1]), true);
       std::cout << "new " << t[1] << " " << t[2] << " => " << citerState(it) << " edom=0\n";
     }
+    else if (t[0] == "fresh")
+    {
+      // primesieve_init only (memory == NULL): the next jump_to / skipto is the first operation
+      sticky = false;
+      primesieve_free_iterator(&it);
+      primesieve_init(&it);
+      edom = false;
+      orc = CursorOracle(); orc.jump(0, true);
+      std::cout << "fresh => " << citerState(it) << " edom=0\n";
+    }
     else if (t[0] == "next" || t[0] == "prev")
     {
       long n = t.size() > 1 ? atol(t[1].c_str()) : 1;
